@@ -26,7 +26,7 @@ Qed.
 
 Lemma restore_and_strip_no_panic claims ds : restore_and_strip O claims ds <> Panic.
 Proof.
-  unfold restore_and_strip. destruct (parse_halg _); [|discriminate].
+  unfold restore_and_strip. destruct (declared_halg _); [|discriminate].
   apply obind_no_panic; [apply of_res_no_panic|]. discriminate.
 Qed.
 
@@ -35,7 +35,7 @@ Proof.
   unfold verifier_verify_raw. rewrite sd_jwt_parts_m_total. cbn [obind]. destruct (sd_jwt_parts token) as [[jwt ds] kb].
   apply obind_no_panic; [apply jwt_np|]. intros [h c].
   destruct (is_null (jget "cnf" c) && _); [discriminate|]. destruct (negb (is_null (jget "cnf" c)) && _); [discriminate|].
-  destruct (jget "_sd_alg" c); try discriminate. destruct (parse_halg _); [|discriminate].
+  destruct (declared_halg _); [|discriminate].
   apply obind_no_panic; [|discriminate].
   destruct kb as [k|]; [|discriminate]. destruct (negb kbpol); [discriminate|].
   apply obind_no_panic; [apply verify_kb_no_panic|]. intros kc. destruct (jget "sd_hash" (snd kc)); try discriminate.
@@ -53,7 +53,7 @@ Proof.
   unfold holder_verify, holder_verify_raw. rewrite sd_jwt_parts_m_total. cbn [obind]. destruct (sd_jwt_parts token) as [[jwt ds] kb].
   destruct kb; [cbn; discriminate|].
   destruct (o_jwt O jwt) as [[h c]| |] eqn:Ej; cbn [obind]; [|discriminate|exfalso; exact (jwt_np _ Ej)].
-  destruct (jget "_sd_alg" c); try (cbn; discriminate). destruct (parse_halg _); [|cbn; discriminate]. cbn [obind].
+  destruct (declared_halg _); [|cbn; discriminate]. cbn [obind].
   apply obind_no_panic; [apply restore_and_strip_no_panic|]. discriminate.
 Qed.
 
@@ -62,7 +62,7 @@ Proof.
   unfold holder_presentation. rewrite sd_jwt_parts_m_total. cbn [obind]. destruct (sd_jwt_parts token) as [[jwt ds] kb].
   destruct kb; [discriminate|].
   apply obind_no_panic; [apply jwt_parts_m_no_panic|]. intros [[a b] c].
-  apply obind_no_panic; [apply of_res_no_panic|]. intros claims. destruct (parse_halg _); [|discriminate].
+  apply obind_no_panic; [apply of_res_no_panic|]. intros claims. destruct (declared_halg _); [|discriminate].
   apply obind_no_panic; [apply of_res_no_panic|]. discriminate.
 Qed.
 
@@ -72,7 +72,7 @@ Proof.
   apply obind_no_panic; [apply jwt_parts_m_no_panic|]. intros [[a b] c].
   apply obind_no_panic; [apply of_res_no_panic|]. intros claims.
   destruct (jhas "cnf" claims && _); [discriminate|]. destruct (jhas "cnf" claims); [|discriminate].
-  destruct (parse_halg _); [|discriminate]. destruct (h_kb h) as [[aud jalg]|]; [|discriminate].
+  destruct (declared_halg _); [|discriminate]. destruct (h_kb h) as [[aud jalg]|]; [|discriminate].
   apply obind_no_panic; [apply Hs|]. discriminate.
 Qed.
 End C10.
